@@ -10,8 +10,10 @@ CFG = dict(
                "for 12-s-slot networks and a local clock between genesis and 2242), per-signer monotone (slot, round); the per-signer limits (<= 1 proposal / prepare / "
                "commit / round change per signer per (slot, round), hence no second proposal) as an invariant over ALL histories of validation calls by induction; "
                "calls for different (validator, role) ids commute (verdicts and final state), which with the per-id mutex reduces every interleaving to a sequential order. "
-               "One listed rule is NOT enforced by the code: the slot window of PARTIAL-SIGNATURE messages (full clause refuted in Lean with a concrete witness, reproduced "
-               "on the real validator: known finding). ",
+               "PARTIAL-SIGNATURE messages: the FUTURE side of the slot window holds since repair 6c728adc1 (accepted => slot <= current slot; an accepted message "
+               "never leaves the signer's entry beyond the receiver's current slot, so nobody can be muted; regression lemma on the pre-repair guard list); the LATE side "
+               "of the window is NOT enforced by the code (full clause refuted in Lean with a concrete witness — a duty 1000 slots old is accepted —, reproduced on the "
+               "real validator: known finding C09/partial-sig-late-slot-unchecked; harmless to the signer, it only lets stale messages through). ",
     level_note="Trusted: Lean kernel; the fact extractor; the harness' abstraction of real messages into op lines; RSA/BLS/SHA-256/SSZ as abstract inputs computed by the "
                "real functions; the model of Go time.Time and uint64 slot arithmetic (differentially validated).",
     technique="Lean 4 proof (accept-soundness clause by clause, trace invariant by induction over histories, commutation) + regenerated guard-order/limit facts "
